@@ -8,13 +8,13 @@ from lib import Result, RMODES, OMODES, e_fmt, e_list, e_dy, model_call, run_sha
 
 RULE = ('stratified: (A) exhaustive quarter-LSB sweep over 3x the range of every format with n_word<=3 (quick) / <=6 (thorough), '
         'n_frac -8..n_word+8, all 10 mode pairs, as arrays by rotating routes; (B) random formats up to 52 bits, boundary-biased '
-        'values, every carrier that can hold them exactly, every route; (C) huge finite floats under saturate. A case is non-trivial '
+        'values, every carrier that can hold them exactly, every route; (C) huge finite floats under saturate; (D) floats and integers with |v*2^n_frac| in [2^50, 2^62) (beyond the integer precision of float64) under both overflow modes, small and random words; (E) float arrays mixing an element of magnitude >= 2^64 with fractional ones under saturate. A case is non-trivial '
         'when some element is changed by quantization (rounded or overflowed); distinct by hash of format, modes, carrier, route, values.')
 ASSUMPTIONS = ['carrier glue (np.array dtype inference on lists/tuples, float(str)) is exercised but has no Gallina counterpart']
 
 from storelib import check_store_cases, spec_list_request
-def check_cases(cases, res, stratum, huge=False):
-    return check_store_cases(cases, res, stratum, 'C01', huge=huge)
+def check_cases(cases, res, stratum, huge=False, keep_array=False):
+    return check_store_cases(cases, res, stratum, 'C01', huge=huge, keep_array=keep_array)
 
 def exhaustive_formats(tier):
     nwmax = 3 if tier == 'quick' else 6
@@ -63,7 +63,34 @@ def shard(shard, nshards, rng, tier, extra):
         mag = rng.choice([2.0**63, 2.0**64, 2.0**65, 1e30, 1e100, 1.7e308, 2.0**1023, rng.uniform(1, 2) * 2.0**rng.randint(53, 1023)])
         v = mag * rng.choice([1, -1])
         cases.append({'s': s, 'nw': nw, 'nf': nf, 'r': rng.choice(RMODES), 'o': 'saturate', 'carrier': 'pyfloat', 'route': rng.choice(S.ROUTES[:3]), 'vals': [v]})
-    check_cases(cases, res, 'C:huge-floats-saturate', huge=True)
+    check_cases(cases, res, 'C:huge-floats-saturate')
+    # ---- (D) far-out-of-range floats: |v*2^n_frac| in [2^50, 2^62), beyond float64's integer precision, both overflow modes
+    cases = []
+    for _ in range((1200 if tier == 'quick' else 30000) // nshards):
+        s, nw, nf = S.random_format(rng)
+        if rng.random() < 0.5: nw = rng.randint(1, 12)
+        vals = []
+        for _k in range(rng.choice([1, 1, 2, 4])):
+            m = rng.getrandbits(53) | (1 << 52) | rng.choice([0, 1]); e = rng.randint(50, 61) - 52 - nf
+            v = Fraction(m) * Fraction(2) ** e * rng.choice([1, -1])
+            if rng.random() < 0.3: v = Fraction(2) ** (rng.randint(50, 61) - nf) * rng.choice([1, -1])
+            if S.in_core(nf, v) and S.is_double(v): vals.append(S.as_number(v))
+        if not vals: continue
+        if rng.random() < 0.5: vals = [float(v) for v in vals]
+        carrier = rng.choice(S.carriers_for(vals, rng))
+        cases.append({'s': s, 'nw': nw, 'nf': nf, 'r': rng.choice(RMODES), 'o': rng.choice(OMODES), 'carrier': carrier, 'route': rng.choice(S.ROUTES),
+                      'vals': vals, 'setmode': rng.choice(['slice', 'each', 'fancy'])})
+    check_cases(cases, res, 'D:far-out-of-range')
+    # ---- (E) float arrays mixing a huge element (>= 2^64 in magnitude) with fractional ones, under saturate, n_frac >= 0
+    cases = []
+    for _ in range((400 if tier == 'quick' else 8000) // nshards):
+        s, nw, nf = S.random_format(rng)
+        if nf < 0: nf = -nf
+        vals = [float(S.as_number(v)) for v in S.boundary_values(rng, s, nw, nf, rng.choice([1, 2, 3]))]
+        vals.insert(rng.randint(0, len(vals)), rng.choice([1, -1]) * rng.choice([2.0**64, 2.0**65, 1e30, 1e100, rng.uniform(1, 2) * 2.0**rng.randint(64, 200)]))
+        cases.append({'s': s, 'nw': nw, 'nf': nf, 'r': rng.choice(RMODES), 'o': 'saturate', 'carrier': rng.choice(['arr:float64', 'list', 'tuple']),
+                      'route': rng.choice(S.ROUTES[:3]), 'vals': vals})
+    check_cases(cases, res, 'E:huge-mixed-with-fractional', keep_array=True)
     if tier != 'quick' or True:
         res.exhaustive = True   # stratum A enumerates its finite set completely
     return res
